@@ -411,10 +411,13 @@ class HTTP(BaseComponent):
         etype, evalue, etraceback = args
         fevent = kwargs['fevent']
 
-        if isinstance(fevent, response):
-            res = fevent.args[0]
-            req = res.request
-        elif isinstance(fevent.value.parent.event, request):
+        if isinstance(fevent, (request, response)):
+            # a failing request / response handler is answered by _on_request_failure /
+            # _on_response_failure (both events have failure = True); answering it here
+            # as well put the error response on the connection twice
+            return
+
+        if isinstance(fevent.value.parent.event, request):
             req, res = fevent.value.parent.event.args[:2]
         elif len(fevent.args[2:]) == 4:
             req, res = fevent.args[2:]
